@@ -363,6 +363,28 @@ def run(ck, prog, ctx):
             c_, s_ = params_of(pvw.of_operand(hs, t.args[0]), hs.id), params_of(pvw.of_operand(hs, t.args[1]), hs.id)
             ck.ob("ROLE", "HpoSet::similarity/strategies", c_ == {4} and s_ == {3}, "GroupSimilarity::new receives (combiner, similarity) from the parameters %s, %s (expected the `combiner` and `similarity` arguments)" % (sorted(c_), sorted(s_)), where=hs.where(t.line))
 
+    # the score travels from the combiner to the caller unchanged: combine -> SimilarityCombiner::calculate -> GroupSimilarity::calculate -> HpoSet::similarity
+    ck.rule("ASIS", "each layer between the combiner formula and the public entry point returns the inner result as it is (no clamp / rounding / rescaling on the way)")
+    from engines import steps_after_call
+    pva = Prov(prog, inline=False, mutflow=False)
+    chain = [(SC + "::calculate", "combine", lambda c: c.method == "combine" and (c.deff == SC + "::combine" or (c.trait or "") == SC)),
+             ("similarity::GroupSimilarity::<T, C>::calculate", "the combiner's calculate", lambda c: c.method == "calculate" and ((c.trait or "") == SC or c.deff == SC + "::calculate")),
+             ("set::HpoSet::<'a>::similarity", "GroupSimilarity::calculate", lambda c: c.method == "calculate" and "GroupSimilarity" in ((c.res or "") + (c.def_args or "")))]
+    n_asis = 0
+    for bid, what, cpred in chain:
+        lb_ = prog.body(bid)
+        if lb_ is None:
+            ck.undecided("ASIS", bid.rsplit("::", 1)[0].rsplit("::", 1)[-1] + "::" + bid.rsplit("::", 1)[-1], "%s not found" % bid)
+            continue
+        st_ = steps_after_call(lb_, pva, lambda t_: cpred(t_.callee))
+        key = "as-is/" + lb_.short
+        if st_ is None:
+            ck.undecided("ASIS", key, "%s does not return the result of %s directly (other structure)" % (lb_.short, what), where=lb_.where())
+            continue
+        n_asis += 1
+        ck.ob("ASIS", key, not st_, "%s returns the result of %s %s" % (lb_.short, what, "unchanged" if not st_ else "after `%s`: scores outside what that step lets through are silently altered" % "`, `".join(st_)), where=lb_.where())
+    ck.floor("ASIS", "layers between combiner and entry point", n_asis, 2, soft=True)
+
     ck.rule("GUARD", "numeric conversion helpers are exact or fail (DESIGN 3.5)")
     from props.shared import check_exact_conversion
     check_exact_conversion(ck, "GUARD", prog, "similarity::usize_to_f32", "the matrix dimensions")
